@@ -30,4 +30,7 @@ ev C11 7 zz_demo_test.go . -- C11
 ev C12 8 zz_demo_test.go . -- C12
 ev C16 8 zz_demo_test.go . -- C16
 }
+lane5() {
+ev C17 7 internal/transport/zz_demo_test.go ./internal/transport -- C17
+}
 "$@"
